@@ -182,7 +182,7 @@ def capture_table_dates(ctx, tz):
 
 
 def run(ctx):
-    n = ctx.n(900, 30000)
+    n = ctx.n(900, 10000)
     for c0 in range(0, n, 2500):
         blocks_chunk(ctx, min(2500, n - c0))
     block_extras(ctx)
